@@ -63,9 +63,9 @@ type C16Case struct {
 
 // Known-finding switches (each excludes one shape by construction, see genC16):
 const (
-	knownD8  = "d8-start-blocks-forever"               // no runtime->stub cut before the Configure request is complete
+	knownD8  = "d8-start-blocks-forever"                // no runtime->stub cut before the Configure request is complete
 	knownD9  = "d9-late-close-tears-down-later-session" // no back-to-back restart, no immediate retry
-	knownD10 = "d10-retry-reuses-dead-connection"      // no Start that dials and then fails
+	knownD10 = "d10-retry-reuses-dead-connection"       // no Start that dials and then fails
 )
 
 // ---- handshake size (domain of k) -------------------------------------------------------------
@@ -499,11 +499,15 @@ func (x *exec) doStart(sc Script) *failure {
 	x.pending = &sc
 	x.mu.Unlock()
 	d0, c0 := x.dials.Load(), x.cfgs.Load()
+	x.mu.Lock()
+	l0 := len(x.links)
+	x.mu.Unlock()
 	bound := x.startBound()
 	err, returned, pan := x.guarded(bound, func() error { return x.st.Start(context.Background()) })
 	x.mu.Lock()
 	x.pending = nil
 	ierr := x.dialErr
+	connected := len(x.links) - l0 // dials that yielded a connection
 	x.mu.Unlock()
 	dialed := x.dials.Load() - d0
 	desc := sc.Kind
@@ -575,7 +579,7 @@ func (x *exec) doStart(sc Script) *failure {
 
 	// Start failed from the idle state.
 	x.faulted = true
-	if dialed > 0 {
+	if connected > 0 {
 		x.optOut++
 	}
 	switch sc.Kind {
